@@ -166,6 +166,12 @@ def run_check(pid, tier, seed, replay=None, jobs=None):
         # A violated design model says nothing about the code by itself (the model is a fixed text); it means the
         # model no longer satisfies the requirement spec, i.e. the machinery is inconsistent: exit 2, not 1.
         machinery.append("design model %s violates %s:\n%s" % (r["label"], r["violated"], r["tail"][-1500:]))
+    drift = []
+    for sc, r in results:
+        for note in (r.get("notes") or []):
+            print(note)
+            if note.startswith("MODEL-DRIFT"):
+                drift.append(sc["name"])
     for msg in machinery:
         print("MACHINERY-FAILURE: " + msg[-3000:])
     # evidence
@@ -192,6 +198,9 @@ def run_check(pid, tier, seed, replay=None, jobs=None):
         known_findings_hit=sorted(known),
         fastsim=env.fastsim_enabled(),
     )
+    if any(r.get("lockstep") for r in good):
+        cov["design_model_bound"] = not drift       # B2: the exhaustive design-model result is tied to the code only while lock-step holds
+        cov["lockstep_cycles"] = sum(r.get("lockstep", 0) for r in good)
     if mresults:
         cov["states"] = sum(r["stats"]["distinct"] for _, r in mresults if not r["error"])
         cov["transitions"] = sum(r["stats"]["generated"] for _, r in mresults if not r["error"])
